@@ -19,7 +19,7 @@ Lemma unlimited_write w d : unlimited w ->
 Proof. unfold unlimited, accepted, w_write. intros ->. cbn. auto. Qed.
 
 (** a non-empty counted payload after any of the type bytes $ = ; *)
-Lemma runw_stream_payload f t s rest w : k_stream_blob t = true -> s <> [] -> (zlen s < two63)%Z ->
+Lemma runw_stream_payload f t s rest w : k_stream_blob t = true -> s <> [] -> (zlen s + 2 < two63)%Z ->
   runw B (stream_to (S f)) (t :: dec (blen s) ++ crlf ++ s ++ crlf ++ rest) w =
     ((zlen (accepted w s), (if w_failed (snd (w_write w s)) then SErr eWriter else SNone), true), rest, snd (w_write w s)).
 Proof.
@@ -37,6 +37,7 @@ Proof.
   set (w' := snd (w_write w s)). set (d := accepted w s).
   rewrite (runw_bind_eq B _ _ _ _ _ _ _ (runw_writer_err B _ w')).
   pose proof (accepted_len w s) as Hd. fold d in Hd.
+  rewrite (wrap64_small_z (zlen s - zlen d + 2)) by (unfold zlen, two63 in *; lia).
   assert (Edis : runw B (do_op (ODiscard (zlen s - zlen d + 2))) (skipn (length d) s ++ crlf ++ rest) w' = (Ok [], rest, w')).
   { rewrite app_assoc. apply runw_discard. rewrite app_length, skipn_length. cbn [crlf length]. unfold zlen. lia. }
   rewrite (runw_bind_eq B _ _ _ _ _ _ _ Edis).
@@ -76,7 +77,7 @@ Proof.
     rewrite stream_chunks_S. cbv zeta.
     destruct (Z.eqb_spec nn 0) as [Hx|_]; [contradiction|]. cbn [negb andb flat_map].
     assert (Hcne : c <> []) by (destruct c; [discriminate|congruence]).
-    assert (Hcl : (zlen c < two63)%Z) by (unfold len_ok in Hlen; lia).
+    assert (Hcl : (zlen c + 2 < two63)%Z) by (unfold len_ok in Hlen; lia).
     destruct g as [|g]; [lia|].
     unfold enc_chunk at 1. rewrite <- !app_assoc. cbn [app]. rewrite <- !app_assoc.
     rewrite (runw_bind_eq B _ _ _ _ _ _ _ (runw_stream_payload g tChunk c _ w eq_refl Hcne Hcl)).
@@ -111,7 +112,7 @@ Proof.
     unfold chunks_ok in Hcs. cbn [forallb] in Hcs. apply andb_true_iff in Hcs as [Hc Hcs].
     apply andb_true_iff in Hc as [Hne Hlen].
     assert (Hcne : c <> []) by (destruct c; [discriminate|congruence]).
-    assert (Hcl : (zlen c < two63)%Z) by (unfold len_ok in Hlen; lia).
+    assert (Hcl : (zlen c + 2 < two63)%Z) by (unfold len_ok in Hlen; lia).
     cbn [flat_map]. unfold enc_chunk at 1. rewrite <- !app_assoc. cbn [app]. rewrite <- !app_assoc.
     rewrite (runw_bind_eq B _ _ _ _ _ _ _ (runw_stream_payload f tChunk c _ w eq_refl Hcne Hcl)).
     destruct (unlimited_write w c Hw) as (Ea & Ef & Hw' & Eo). rewrite Ea, Ef. cbv beta iota.
